@@ -10,7 +10,8 @@ CONSTANTS Sigma <- SigmaQuick
           Blocks = {"B1", "B2"}
           Comps <- CompsBoth
           SeriesIds = {0, 1, 10}
-          Legacy = FALSE
+          Legacy = {}
           GroupSyms = 2
+          RecvValLen = 3
 INVARIANTS C13_NoConflation
 CHECK_DEADLOCK FALSE
